@@ -200,3 +200,21 @@ Theorem C06_tables_match_source :
   /\ (forall s, src_explicit s = negb (beq (src_name_bytes s) Gen.ActionDefaults.value_source_not_explicit)).
 Proof. exact tables_match_source. Qed.
 Print Assumptions C06_tables_match_source.
+
+(** phase order on the error paths: the first failing phase decides; the validator's error is the one
+    computed on the matcher *before* defaults *)
+Theorem C06_phases_errors : forall fuel' c toks st0,
+  is_set s_ignore_errors c = false ->
+  (forall e s, cmdline_phase fuel' c toks st0 = RErr e s -> get_matches_with (S fuel') c toks st0 = RErr e s)
+  /\ (forall st_c e s, cmdline_phase fuel' c toks st0 = ROk st_c -> resolve_pending c st_c = RErr e s ->
+        get_matches_with (S fuel') c toks st0 = RErr e s)
+  /\ (forall st_c st1 e s, cmdline_phase fuel' c toks st0 = ROk st_c -> resolve_pending c st_c = ROk st1 ->
+        add_env c st1 = RErr e s -> get_matches_with (S fuel') c toks st0 = RErr e s)
+  /\ (forall st_c st1 st2 e s, cmdline_phase fuel' c toks st0 = ROk st_c -> resolve_pending c st_c = ROk st1 ->
+        add_env c st1 = ROk st2 -> add_defaults c st2 = RErr e s ->
+        get_matches_with (S fuel') c toks st0 = RErr e s)
+  /\ (forall st_c st1 st2 st3 k a, cmdline_phase fuel' c toks st0 = ROk st_c -> resolve_pending c st_c = ROk st1 ->
+        add_env c st1 = ROk st2 -> add_defaults c st2 = ROk st3 -> validate c (mt st2) = VErr k a ->
+        get_matches_with (S fuel') c toks st0 = RErr (mkerr c k a) st3).
+Proof. exact phase_order_errors. Qed.
+Print Assumptions C06_phases_errors.
